@@ -156,7 +156,9 @@ def regen_and_build(root):
     failed = [int(m.group(1)) for m in re.finditer(r"error: KmipModel/Props/C01Gen\.lean:(\d+):", out)]
     other = [ln for ln in out.split("\n") if ln.startswith("error:") and "C01Gen.lean" not in ln
              and "Lean exited" not in ln and "build failed" not in ln]
+    first = [ln[:160] for ln in out.split("\n") if ln.startswith("error: KmipModel/Props/C01Gen.lean")][:2]
     return {"build_ok": b.returncode == 0, "broken": theorems_at(failed), "other_errors": other[:3],
+            "first_errors": first if any(n.startswith("example@0") for n in theorems_at(failed)) else [],
             "wall_s": round(time.time() - t0, 1)}
 
 
